@@ -304,6 +304,9 @@ def run(ctx):
     with ctx.rule("C02.R9", "T3", "per-remote queue: queued flag <=> queue entry (a map lane is never left unqueued with pending operations)", floor=20) as r:
         uplinks.queued_flag_discipline(r, ctx)
 
+    with ctx.rule("C02.R10", "T1+T7", "every frame is addressed with the lane it belongs to (the sender's lane name is set per frame, for the lane of that frame)", floor=15) as r:
+        uplinks.frame_lane_name(r, ctx)
+
 
 def is_ret_call(body, c):
     return c.dest[0] == 0 and not c.dest[1]
@@ -311,7 +314,28 @@ def is_ret_call(body, c):
 
 def queue_rules_rt(r, ctx, rt):
     queue_rules(r, ctx, rt, "map_queue::MapOperationQueue", "queue", "MapOperationQueue", r"MapOperationQueue::<S>")
-
-    with ctx.rule("C02.R10", "T1+T7", "every frame is addressed with the lane it belongs to (the sender's lane name is set per frame, for the lane of that frame)", floor=15) as r:
-        uplinks.frame_lane_name(r, ctx)
+    push = ctx.saw(rt.fn(name="push", self_adt="map_queue::MapOperationQueue"))
+    # replace-in-place of a queued Update: the body that is still waiting is replaced as a whole. A buffer that is reused must be emptied before the
+    # new bytes go in; writing into a part of it (index / copy_from_slice / truncate to a length) leaves bytes of the superseded value behind.
+    WHOLE = ("clear",)
+    FILL = ("put", "put_slice", "extend_from_slice", "extend", "reserve", "put_u8")
+    muts = []
+    for c in push.calls:
+        if not c.args:
+            continue
+        a0 = describe_operand(push, c.args[0])
+        if "<Update>.value" not in a0 or "epoch_map" not in a0:
+            continue
+        if c.name in ("capacity", "len", "is_empty", "remaining", "as_ref", "deref", "chunk"):
+            continue
+        muts.append(c)
+    if not muts:
+        # no reuse of the old buffer at all (the entry is always rebuilt): nothing to check
+        r.ok("MapOperationQueue/push/Update/replace-in-place-whole-value", where(push), "a queued Update is always replaced by a freshly built entry")
+    else:
+        clears = [c for c in muts if c.name in WHOLE or (c.name == "truncate" and describe_operand(push, c.args[1]) == "0")]
+        partial = [c for c in muts if c not in clears and c.name not in FILL]
+        unfenced = [c for c in muts if c.name in FILL and c.name != "reserve" and not any(push.dominates(x.block, c.block) for x in clears)]
+        r.check(not partial and not unfenced, "MapOperationQueue/push/Update/replace-in-place-whole-value", muts[0].loc(), "the reused body buffer is emptied before the newer value is written into it (%s)" % [c.name for c in muts],
+                "the queued body is overwritten in part (%s): when the newer value is shorter the tail of the superseded value is sent with it - the remote stores a value the key never held" % [c.name for c in (partial + unfenced)])
 
